@@ -435,46 +435,180 @@ def r3(fx):
              and 'title' not in got, fn, got=got, want='scale, border, dark, light, dpi')
 
 
-@rule('C12', 'R4', 50, 'CLI: every argparse destination is consumed by symbol creation / main or is a serialiser keyword; colour list = colour parameters')
+class _RecCfg(dict):
+    """A configuration dictionary that records which keys are taken out of it."""
+    _model = ('pop', 'get', 'items', 'keys', 'update', 'copy', '__getitem__', '__contains__', 'setdefault', 'values')
+
+    def __init__(self, *a, **k):
+        super().__init__(*a, **k)
+        self.taken = []
+
+    def pop(self, key, *d):
+        self.taken.append(key)
+        return super().pop(key, *d)
+
+    def get(self, key, *d):
+        self.taken.append(key)
+        return super().get(key, *d)
+
+    def __getitem__(self, key):
+        self.taken.append(key)
+        return super().__getitem__(key)
+
+
+class _Code:
+    _model = ('co_varnames', 'co_argcount', 'co_kwonlyargcount')
+
+    def __init__(self, fn):
+        a = fn.args
+        pos = [x.arg for x in a.posonlyargs + a.args]
+        kwo = [x.arg for x in a.kwonlyargs]
+        extra = ([a.vararg.arg] if a.vararg else []) + ([a.kwarg.arg] if a.kwarg else [])
+        locs = []
+        for n in ast.walk(fn):
+            if isinstance(n, ast.Name) and isinstance(n.ctx, ast.Store) and n.id not in pos + kwo + extra + locs:
+                locs.append(n.id)
+        self.co_varnames = tuple(pos + kwo + extra + locs)
+        self.co_argcount = len(pos)
+        self.co_kwonlyargcount = len(kwo)
+
+
+class _FnDesc:
+    """What introspection sees of a serialiser: __code__, __defaults__, __kwdefaults__, __name__ and, for a function decorated
+    with a functools.wraps wrapper, __wrapped__."""
+    _model = ('__code__', '__defaults__', '__kwdefaults__', '__name__', '__wrapped__')
+
+    def __init__(self, fn, wrapped=None, name=None):
+        self.__code__ = _Code(fn)
+        self.__defaults__ = tuple(object() for _ in fn.args.defaults) or None
+        self.__kwdefaults__ = {x.arg: object() for x, d in zip(fn.args.kwonlyargs, fn.args.kw_defaults) if d is not None} or None
+        self.__name__ = name or fn.name
+        if wrapped is not None:
+            self.__wrapped__ = wrapped
+
+    def __getattr__(self, name):
+        raise PyRaise(AttributeError, None, f"'function' object has no attribute {name!r}")
+
+
+@rule('C12', 'R4', 49, 'CLI: every argparse destination is consumed by symbol creation / main or is a serialiser keyword; colour list = colour parameters; options reach the factories unchanged')
 def r4(fx):
     defaults = _parser_defaults(fx)
     wk = _writer_kw(fx)
     allkw = set().union(*[set(d) for d in wk.values()])
     mc = fx.fn('cli', 'make_code')
-    popped = {c.args[0].value for c in src.calls_in(mc, 'pop') if c.args and isinstance(c.args[0], ast.Constant)}
+    it = Interp(max_steps=20_000_000)
+    # make_code, interpreted with recording configurations and recording factories
+    marks = {'mode': '<mode>', 'error': '<error>', 'version': '<version>', 'pattern': '<pattern>', 'encoding': '<encoding>', 'boost_error': '<boost>',
+             'micro': '<micro>', 'symbol_count': '<count>', 'content': ['<a>', '<b>'], 'output': '<out>', 'border': '<border>', 'compact': '<compact>'}
+    falsy = {'mode': None, 'error': None, 'version': None, 'pattern': 0, 'encoding': None, 'boost_error': False, 'micro': False, 'symbol_count': None,
+             'content': ['0'], 'output': None, 'border': 0, 'compact': False}
+    taken = set()
+    fwd_bad = []
+    for seq in (False, True):
+        for vals in (marks, falsy):
+            calls = []
+
+            class Segno:
+                _model = ('make', 'make_sequence', 'make_qr', 'make_micro')
+
+                @staticmethod
+                def make(content, **kw):
+                    calls.append(('make', content, kw))
+                    return '<qr>'
+
+                @staticmethod
+                def make_sequence(content, **kw):
+                    calls.append(('make_sequence', content, kw))
+                    return '<seq>'
+                make_qr = make_micro = make
+            cfg = _RecCfg(dict(defaults, **vals), seq=seq)
+            genv = callable_env(fx.forest, 'cli', it, {'segno': Segno()})
+            try:
+                res = FuncVal(mc, genv, it)(cfg)
+            except PyRaise as ex:
+                res = f'raises {ex.name}'
+            taken |= set(cfg.taken)
+            want_kw = dict(mode=vals['mode'], error=vals['error'], version=vals['version'], mask=vals['pattern'], encoding=vals['encoding'],
+                           boost_error=vals['boost_error'])
+            want_kw.update({'symbol_count': vals['symbol_count']} if seq else {'micro': vals['micro']})
+            want = [('make_sequence' if seq else 'make', ' '.join(vals['content']), want_kw)]
+            if calls != want or res != ('<seq>' if seq else '<qr>'):
+                fwd_bad.append((seq, calls, res))
+    yield ob('make_code maps the options to the factory keywords (falsy values included) and encodes the joined content', not fwd_bad, mc,
+             got=fwd_bad[:2] or 'as required', want='make / make_sequence(" ".join(content), mode, error, version, mask=pattern, encoding, boost_error, micro | symbol_count)')
+    # main: what it takes out of the configuration
     mainf = fx.fn('cli', 'main')
-    popped_main = {c.args[0].value for c in src.calls_in(mainf, 'pop') if c.args and isinstance(c.args[0], ast.Constant)}
+    taken_main = set()
+    for output in (None, 'x.svg'):
+        cfg = _RecCfg(dict(defaults, **marks), output=output)
+
+        class QR:
+            _model = ('terminal', 'save')
+
+            def terminal(self, **kw):
+                pass
+
+            def save(self, out, **kw):
+                pass
+        genv = callable_env(fx.forest, 'cli', it, {'parse': lambda args, cfg=cfg: cfg, 'make_code': lambda config: QR(),
+                                                   'build_config': lambda config, filename=None: {}})
+        try:
+            FuncVal(mainf, genv, it)(['x'])
+        except (PyRaise, Unknown):
+            pass
+        taken_main |= set(cfg.taken)
     rewrites = {'svgencoding': 'encoding', 'no_classes': 'svgclass'}
     for dest in sorted(defaults):
-        ok = dest in popped or dest in popped_main or dest in allkw or rewrites.get(dest) in allkw or dest == 'compact'
+        ok = dest in taken or dest in taken_main or dest in allkw or rewrites.get(dest) in allkw or dest == 'compact'
         yield ob(f'destination {dest}', ok, fx.fn('cli', 'make_parser'), got='consumed' if ok else 'neither consumed nor a serialiser keyword',
                  want='consumed by make_code/main or a serialiser keyword')
-    bc = fx.fn('cli', 'build_config')
-    loop = [s for s in bc.body if isinstance(s, ast.For) and isinstance(s.iter, ast.Tuple) and len(s.iter.elts) > 10]
-    l = single(loop, 'colour loop in build_config')
-    got = sorted(e.value for e in l.iter.elts)
+    # colour keys: build_config turns 'transparent' into None for exactly the colour parameters of the colourful serialisers
+    bcf = fx.fn('cli', 'build_config')
     wrapper = fx.fn('writers', 'colorful.decorate.wrapper')
     want = sorted(p for p in src.params(wrapper) if p not in ('matrix', 'matrix_size', 'out'))
-    yield ob('colour keys handled by build_config = colour parameters of the colourful serialisers', got == want, l,
-             got=f'missing {sorted(set(want) - set(got))} extra {sorted(set(got) - set(want))}', want='missing [] extra []')
-    # make_code forwards to the factories
-    b = [s for s in mc.body if isinstance(s, ast.Assign) and ast.unparse(s.targets[0]) == 'kw']
-    kwa = single(b, 'kw = dict(...) in make_code')
-    want_kw = "dict(mode=config.pop('mode'), error=config.pop('error'), version=config.pop('version'), mask=config.pop('pattern'), encoding=config.pop('encoding'), boost_error=config.pop('boost_error'))"
-    yield ob('make_code maps the options to the factory keywords', nf.same(kwa.value, want_kw), kwa,
-             got=ast.unparse(kwa.value), want=want_kw)
-    r = single([s for s in mc.body if isinstance(s, ast.Return)], 'return of make_code')
-    yield ob('make_code encodes the joined content with those keywords', pat.match(r.value, "make(' '.join(config.pop('content')), **kw)") is not None, r,
-             got=ast.unparse(r.value), want="make(' '.join(config.pop('content')), **kw)")
-    # the table of accepted keywords is computed from the signatures
-    lp = [s for s in fx.forest.mod('cli').body if isinstance(s, ast.For)]
-    okl = len(lp) == 1 and 'writers._VALID_SERIALIZERS.items()' in ast.unparse(lp[0].iter) and '__wrapped__' in ast.unparse(lp[0]) \
-        and '_EXT_TO_KW_MAPPING[ext] = frozenset(kws)' in ast.unparse(lp[0])
-    ga = fx.fn('cli', '_get_args')
-    okg = [ast.unparse(s) for s in ga.body] == ['func_code = func.__code__', 'args = func_code.co_varnames[:func_code.co_argcount]',
-                                                 'return args[-len(func.__defaults__):]']
-    yield ob('accepted keywords per kind = parameters with defaults of the serialiser and of the function it wraps', okl and okg,
-             fx.forest.mod('cli'), where='cli (module level)', got=(okl, okg), want=(True, True))
+    genv = callable_env(fx.forest, 'cli', it)
+    cfg = dict(defaults)
+    cfg.update({k: 'transparent' for k in want})
+    cfg.update({'title': 'transparent', 'unit': 'transparent', 'output': 'x.svg'})
+    try:
+        got_cfg = FuncVal(bcf, genv, it)(dict(cfg))
+        got = sorted(k for k in want if k in got_cfg and got_cfg[k] is None)
+        others = sorted(k for k in ('title', 'unit') if got_cfg.get(k) != 'transparent')
+    except PyRaise as ex:
+        got, others = f'raises {ex.name}', []
+    yield ob('colour keys handled by build_config = colour parameters of the colourful serialisers', got == want and not others, bcf,
+             got=f'missing {sorted(set(want) - set(got))} also rewritten {others}' if isinstance(got, list) else got, want='missing [] also rewritten []')
+    # the table of accepted keywords, as the module computes it, is the set of optional parameters of each serialiser (and of
+    # the function it wraps)
+    table = fx.forest.module_assign('writers', '_VALID_SERIALIZERS')
+    need(isinstance(table, ast.Dict), '_VALID_SERIALIZERS is not a dict display')
+    descs = {}
+    for k, v in zip(table.keys, table.values):
+        fn = fx.fn('writers', v.id)
+        d = _FnDesc(fn)
+        if any(isinstance(x, ast.Call) and src.call_name(x) == 'colorful' for x in fn.decorator_list):
+            d = _FnDesc(wrapper, wrapped=d, name=fn.name)
+        descs[k.value] = d
+    from ..interp import module_namespace
+    wns = module_namespace(fx.forest, 'writers', it, {'_VALID_SERIALIZERS': descs})
+    genv = callable_env(fx.forest, 'cli', it, {'writers': wns})
+    body = [st for st in fx.forest.mod('cli').body if isinstance(st, (ast.Assign, ast.AugAssign, ast.For, ast.While, ast.If, ast.Expr, ast.Delete, ast.Try))
+            and not (isinstance(st, ast.If) and '__main__' in ast.unparse(st.test))
+            and not (isinstance(st, ast.Expr) and isinstance(st.value, ast.Constant))]
+    try:
+        it.block(body, genv)
+        tab = genv.get('_EXT_TO_KW_MAPPING')
+        bad = {}
+        cli_keys = set(defaults) | set(rewrites.values()) | {'lineclass'}
+        for kind, d in wk.items():
+            got_k = set(tab.get(kind, ())) if isinstance(tab, dict) else None
+            # what the command line can set must get through; nothing the serialiser does not accept may get through
+            if got_k is None or not (set(d) & cli_keys) <= got_k or not got_k <= set(d):
+                bad[kind] = f'missing {sorted((set(d) & cli_keys) - (got_k or set()))} extra {sorted((got_k or set()) - set(d))}'
+    except PyRaise as ex:
+        bad = f'raises {ex.name}'
+    yield ob('accepted keywords per kind = parameters with defaults of the serialiser and of the function it wraps', not bad,
+             fx.forest.mod('cli'), where='cli (module level)', got=bad or 'as required', want='as required')
 
 
 class _QRStub:
